@@ -206,6 +206,56 @@ def _corpus_shard(shard, n, tier, seed, budget_s):
     rep["distinct"] = len(rep["distinct"])
     return rep
 
+KEYWORDS = ["if", "else", "then", "and", "or", "not", "in", "as", "for", "while", "until", "loop", "match", "switch", "try", "catch", "finally", "throw", "return", "yield",
+            "break", "continue", "let", "export", "import", "from", "null", "true", "false", "self", "debug", "await", "const"]
+# N: an identifier; every template is a complete program whose behaviour does not depend on the spelling of N
+NAME_TEMPLATES = [
+    "N = 3\nx = if false then 1 else N\nprint x", "N = 3\nx = if N == 3 then N else 0\nprint x", "N = 3\nx = if false\n  1\nelse\n  N\nprint x", "N = 3\nif N\n  print 1\nelse if N\n  print 2",
+    "N = 3\nprint N + 1", "N = true\nprint not N", "N = 3\nprint 1 and N", "N = 3\nprint null or N", "for N in 0..2\n  print N", "f = |N| N\nprint f 1", "f = |N = 2| N\nprint f()",
+    "m = {N: 1}\nprint m.N", "m =\n  N: 1\nprint m.N", "match 3\n  N then print N", "match 3\n  N if N > 2 then print N\n  else print 0", "N = |a| a\nprint N 2", "N = 3\nprint (N)", "N = 3\nx = [N, N]\nprint x",
+    "N = 3\nprint '{N}'", "f = ||\n  N = 3\n  return N\nprint f()", "N = 'err'\ntry\n  throw N\ncatch e\n  print e", "f = ||\n  N = 3\n  yield N\nprint f().to_list()",
+    "try\n  throw 'e'\ncatch N\n  print N", "N = |v| v + 1\nprint (1 -> N)", "export N = 1\nprint N", "let N = 1\nprint N", "N = 3\nN += 1\nprint N", "N = 3\nprint -N", "N = 3\nwhile N < 5\n  N += 1\nprint N",
+    "N = 3\nuntil N > 5\n  N += 1\nprint N", "N = 3\nswitch\n  N == 3 then print 1\n  else print 2", "N = 3\nx = switch\n  false then 1\n  else N\nprint x", "N = 3\nx = match 1\n  2 then 0\n  else N\nprint x",
+    "N = [1, 2]\nfor v in N\n  print v", "N = 3\nx = loop\n  break N\nprint x", "N, M = 1, 2\nprint N, M", "M, N = 1, 2\nprint N, M", "N = {M: 4}\nprint N.M", "N = [5]\nprint N[0]", "N = 3\nprint N..5",
+    "N = 3\nprint 1..N", "N = 3\nprint 1 + N * 2", "N = 3\nprint N\n  + 1", "f = |a, N...| N\nprint f 1, 2", "f = |(a, N)| N\nprint f (1, 2)", "f = |{N}| N\nprint f {N: 5}", "let {N} = {N: 5}\nprint N",
+    "match {N: 1}\n  {N} then print N", "match (1, 2)\n  (N, ...) then print N", "N = 3\nassert N\nprint 1" if False else "N = 3\nprint size [N]", "N = 3\nf = || N\nprint f()", "x = 1 # N\nprint x",
+]
+
+def _names_shard(shard, n, tier, seed, budget_s):
+    """A keyword is only a keyword up to a word boundary: an identifier that begins with (or ends in) a keyword behaves like any other."""
+    w = Worker()
+    rep = {"violations": [], "evaluations": 0, "distinct": set(), "samples": [], "passenger": [], "names": 0, "templates": len(NAME_TEMPLATES)}
+    idx = 0
+    base_out = {}
+    for ti, tpl in enumerate(NAME_TEMPLATES):
+        for kw in KEYWORDS:
+            for form in ("%sfy", "%s_x", "%s1", "%sé", "x%s", "_%s" if False else "x_%s", "%s%s"):
+                idx += 1
+                if idx % n != shard:
+                    continue
+                name = form % ((kw, kw) if form.count("%s") == 2 else kw)
+                if name in KEYWORDS:
+                    continue
+                if ti not in base_out:
+                    r0 = w.exec(tpl.replace("N", "zq").replace("M", "zm"), timeout=20, limit_ms=3000)
+                    base_out[ti] = (r0.get("outcome"), r0.get("stdout"))
+                src = tpl.replace("N", name).replace("M", "zm")
+                r = w.exec(src, timeout=20, limit_ms=3000)
+                rep["evaluations"] += 1; rep["names"] += 1
+                rep["distinct"].add(sha(src))
+                c01._passengers(rep, r, src)
+                got = (r.get("outcome"), r.get("stdout"))
+                if base_out[ti][0] != "ok":
+                    rep["violations"].append({"key": "names-template:%d" % ti, "summary": "harness: the name template does not run: %r" % (base_out[ti],), "case": {"src": tpl}}); break
+                if got != base_out[ti]:
+                    rep["violations"].append({"key": "names:%d:%s" % (ti, name), "summary": "an identifier beginning or ending with a keyword changes the program: `%s` as %s gives %s (%s), with a plain name %s"
+                                              % (tpl.replace("\n", "; "), name, got, (r.get("error") or "")[:80].replace("\n", " "), base_out[ti]), "case": {"src": src, "expected": base_out[ti], "real": got}})
+        if len(rep["samples"]) < 1:
+            rep["samples"].append({"template": tpl, "names": "iffy if_x if1 ifé xif x_if ifif ... for %d keywords" % len(KEYWORDS)})
+    w.close()
+    rep["distinct"] = len(rep["distinct"])
+    return rep
+
 def run(tier, seed):
     chk = Check(PID, tier, seed)
     if not chk.build():
@@ -217,6 +267,8 @@ def run(tier, seed):
         c01.fold(chk, cov, "kgen-layout-variants-and-prefixes", fan_out(_variants_shard, tier=tier, seed=seed, budget_s=28 if quick else 600))
     if not only or "corpus" in only:
         c01.fold(chk, cov, "corpus-trivia-and-prefixes", fan_out(_corpus_shard, tier=tier, seed=seed, budget_s=25 if quick else 600))
+    if not only or "names" in only:
+        c01.fold(chk, cov, "keyword-prefixed-identifiers", fan_out(_names_shard, tier=tier, seed=seed, budget_s=60))
     cov.pop("passenger_observations", None); cov.pop("passenger_src", None)
     cov["freedoms"] = sorted(ALL_FREEDOMS)
     cov["rule"] = ("(a) programs of the kgen profiles core/fn/match/err printed canonically and in %d seeded variants each (variant 0 flips trivia only: blank lines, "
@@ -224,7 +276,7 @@ def run(tier, seed):
                    "spelling, quote kind, paren-free calls in statement position, inline vs block form of if / arms / function bodies, block maps, and one "
                    "broken construct per statement: binary expression after the operator, argument list, list literal, call chain before `.`); behaviour and "
                    "canonical AST compared. (b) trivia variants of corpus programs: AST equality. (c) line prefixes: header lines and dangling = / operators must "
-                   "be indentation errors, complete statements never. distinct = distinct canonical programs / corpus programs that parse." % (3 if quick else 8))
+                   "be indentation errors, complete statements never. (d) identifiers that begin or end with each of the 33 keywords in %d templates behave like a plain name. distinct = distinct canonical programs / corpus programs that parse." % (3 if quick else 8, len(NAME_TEMPLATES)))
     return chk.finish(cov, assumptions=["header expressions (conditions, subjects, iterables, guards, function headers), inline if / function / arm bodies and string placeholders stay on one line; at most one broken construct per statement (the parser wants deeper indentation for a second break after a break inside a nested operand)",
                                          "cosmetic AST flags normalised for non-trivia variants: Nested, tuple parentheses, call with_parens, if inline, map braces, string quote",
                                          "derived AST fields (local_count, accessed_non_locals) are not syntax and are excluded"])
